@@ -69,6 +69,7 @@ func write3MF(wg *sync.WaitGroup, path string) (chan<- []*sdf.Triangle3, error) 
 		defer f.Close()
 		// read triangles from the channel and add them to the model
 		for ts := range c {
+			simYield("render.write3MF", uint64(len(ts)))
 			for _, t := range ts {
 				v1 := mb.AddVertex(toPoint3D(t[0]))
 				v2 := mb.AddVertex(toPoint3D(t[1]))
@@ -76,6 +77,7 @@ func write3MF(wg *sync.WaitGroup, path string) (chan<- []*sdf.Triangle3, error) 
 				mesh.Triangles.Triangle = append(mesh.Triangles.Triangle, go3mf.Triangle{V1: v1, V2: v2, V3: v3})
 			}
 		}
+		simYield("render.write3MF.encode", 0)
 		// encode and write out the file
 		if err := f.Encode(&model); err != nil {
 			fmt.Printf("%s\n", err)
